@@ -117,9 +117,11 @@ def rand_tempo(rng: random.Random, prof: Profile, res: int):
     return out
 
 
-WORDS = ["solo", "soloend", "x", "a_b", "[idle]", "E", "N", "=", "k=v", "é", "日本", "a\tb", "7", "S2", "\"q\""]
+WORDS = ["solo", "soloend", "x", "a_b", "[idle]", "E", "N", "=", "k=v", "é", "日本", "a\tb", "7", "S2", "\"q\"", "e\u0301", "\u212b", "\u2126x", "100%", "%s", "{0}"]
 TEXT_ATOMS = ["lyric", "section", "lyric ", "section ", "Lyric ", "SECTION ", "Section ", "LYRIC ", "ſection ", " ", "  ", "\"", "=", "[", "]", "{", "}", "la", "Intro", "1", "é",
-              "日本", "\t", "E", "phrase_start", "a", "-", "'", "\\", "\xa0", "N 0 0"]
+              "日本", "\t", "E", "phrase_start", "a", "-", "'", "\\", "\xa0", "N 0 0",
+              # text that is not in a Unicode normal form (decomposed accents, singleton code points, compatibility forms): verbatim means verbatim
+              "e\u0301", "\u212b", "\u2126", "\u30cf\u3099", "\ufb01", "\u1e9b\u0323", "\u00c5", "\uff21", "\u0130", "\u00df", "%s", "{0}"]
 
 
 def rand_text(rng: random.Random, prof: Profile) -> tuple[str, str]:
@@ -235,7 +237,7 @@ def rand_src(rng: random.Random, prof: Profile | None = None) -> ChartSrc:
 def rand_value(rng: random.Random, prof: Profile) -> str:
     if rng.random() < prof.tricky_text:
         atoms = ["a", "B c", "\"", "=", " = ", "Name", "Artist = x", "Resolution = 1", ", 2018", "é", "日本", " ", "\t", "song.ogg",
-                 "\"x\"", "0", "12", "[", "}"]
+                 "\"x\"", "0", "12", "[", "}", "e\u0301", "\u212b", "\u2126", "\u3000", "\xa0", "%s", "100%", "{0}", "\\"]
         v = "".join(rng.choice(atoms) for _ in range(rng.randint(1, 4)))
     else:
         v = rng.choice(["Song Name", "Artist", ", 2018", "song.ogg", "rock", "x"])
